@@ -476,6 +476,8 @@ class IntervalTier(textgrid_tier.TextgridTier):
             interval = Interval(*entry)
         else:
             interval = entry
+        # labels are stored without surrounding whitespace, as in the constructor
+        interval = Interval(interval.start, interval.end, interval.label.strip())
 
         matchList = self.crop(
             interval.start, interval.end, CropCollision.LAX, False
